@@ -438,9 +438,9 @@ def pack_into_passes(nng, arch, verbose_packing=False):
                 if len(consumers) > 1 or (len(consumers) == 1 and consumers[0] != curr_op):
                     return False
 
-            # An activation function cannot be fused onto an operation that already has one: the later one would
-            # replace it
-            if curr_op.type in activation_ops and next_op.activation is not None:
+            # An activation function cannot be fused onto an operation that already has one, nor onto another
+            # activation operator: the later one would replace it
+            if curr_op.type in activation_ops and (next_op.activation is not None or next_op.type in activation_ops):
                 return False
             # There cannot be any reshaping between next_op ofm and corresponding curr_op ifm
             if len(curr_op.ifm_shapes) != 0 and len(next_op.ofm_shapes) != 0:
